@@ -20,6 +20,14 @@ func init() {
 	const reconcileCall = "\tif actualObj, err = r.reconcileObject(ctx, owner, desiredObj, previous, phaseObject.CollisionProtection); err != nil {\n" +
 		"\t\treturn nil, err\n" +
 		"\t}\n"
+	const r3SwitchHead = "\tswitch {\n\tcase unknown ||\n\t\tobjectSet.IsSpecPaused() && !phasesArePaused ||\n\t\t!objectSet.IsSpecPaused() && phasesArePaused:\n\t\t// Could not get status of all remote ObjectSetPhases or they disagree with their parent.\n"
+	const r3TrueCase = "\tcase objectSet.IsSpecPaused() && phasesArePaused:\n\t\t// Everything is paused!\n"
+	const r3TwoLiterals = r3SwitchHead +
+		"\t\tmeta.SetStatusCondition(objectSet.GetConditions(), metav1.Condition{\n\t\t\tType:               corev1alpha1.ObjectSetPaused,\n\t\t\tStatus:             metav1.ConditionUnknown,\n\t\t\tObservedGeneration: objectSet.ClientObject().GetGeneration(),\n\t\t\tReason:             \"PartiallyPaused\",\n\t\t\tMessage:            \"Waiting for ObjectSetPhases.\",\n\t\t})\n\n" +
+		r3TrueCase +
+		"\t\tmeta.SetStatusCondition(objectSet.GetConditions(), metav1.Condition{\n\t\t\tType:               corev1alpha1.ObjectSetPaused,\n\t\t\tStatus:             metav1.ConditionTrue,\n\t\t\tObservedGeneration: objectSet.ClientObject().GetGeneration(),\n\t\t\tReason:             \"Paused\",\n\t\t\tMessage:            \"Lifecycle state set to paused.\",\n\t\t})\n"
+	const r3RemoveCase = "\n\tcase !objectSet.IsSpecPaused() && !phasesArePaused:\n\t\t// Nothing is paused!\n\t\tmeta.RemoveStatusCondition(objectSet.GetConditions(), corev1alpha1.ObjectSetPaused)\n\t}\n"
+	const r5PausedTail = "\t// Skip subreconcilers when paused\n\tif pkg.GetSpecPaused() {\n\t\tres, err = c.objDepStatusReconciler.Reconcile(ctx, pkg)\n\t\tif err != nil {\n\t\t\treturn res, err\n\t\t}\n\t\treturn res, c.updateStatus(ctx, pkg)\n\t}\n\n\tfor _, r := range c.reconciler {"
 	addMutants(
 		// ---- R1
 		Mutant{Prop: "C09", Name: "r1-paused-branch-below-reconcileObject", File: pr,
@@ -201,5 +209,60 @@ func init() {
 		Mutant{Prop: "C09", Name: "r5-benign-operands-swapped", File: pkgc, Benign: true,
 			Old: "\tif pkg.GetSpecPaused() != objDep.GetSpecPaused() {",
 			New: "\tif objDep.GetSpecPaused() != pkg.GetSpecPaused() {"},
+
+		// ---- round seven (Y2): condition built as a base value + field assignments; sub-reconciler
+		// list selected by the pause state
+		Mutant{Prop: "C09", Name: "r3-benign-condition-base-value-filled-per-case", File: osc, Benign: true,
+			Old: r3TwoLiterals,
+			New: "\tpausedCond := metav1.Condition{\n\t\tType:               corev1alpha1.ObjectSetPaused,\n\t\tObservedGeneration: objectSet.ClientObject().GetGeneration(),\n\t}\n\n" +
+				r3SwitchHead +
+				"\t\tpausedCond.Status = metav1.ConditionUnknown\n\t\tpausedCond.Reason = \"PartiallyPaused\"\n\t\tpausedCond.Message = \"Waiting for ObjectSetPhases.\"\n\t\tmeta.SetStatusCondition(objectSet.GetConditions(), pausedCond)\n\n" +
+				r3TrueCase +
+				"\t\tpausedCond.Status = metav1.ConditionTrue\n\t\tpausedCond.Reason = \"Paused\"\n\t\tpausedCond.Message = \"Lifecycle state set to paused.\"\n\t\tmeta.SetStatusCondition(objectSet.GetConditions(), pausedCond)\n"},
+		Mutant{Prop: "C09", Name: "r3-base-value-true-in-the-partially-paused-case", File: osc,
+			Old: r3TwoLiterals,
+			New: "\tpausedCond := metav1.Condition{\n\t\tType:               corev1alpha1.ObjectSetPaused,\n\t\tObservedGeneration: objectSet.ClientObject().GetGeneration(),\n\t}\n\n" +
+				r3SwitchHead +
+				"\t\tpausedCond.Status = metav1.ConditionTrue\n\t\tpausedCond.Reason = \"PartiallyPaused\"\n\t\tpausedCond.Message = \"Waiting for ObjectSetPhases.\"\n\t\tmeta.SetStatusCondition(objectSet.GetConditions(), pausedCond)\n\n" +
+				r3TrueCase +
+				"\t\tpausedCond.Status = metav1.ConditionTrue\n\t\tpausedCond.Reason = \"Paused\"\n\t\tpausedCond.Message = \"Lifecycle state set to paused.\"\n\t\tmeta.SetStatusCondition(objectSet.GetConditions(), pausedCond)\n",
+			Expect: []string{"C09.R3@(*internal/controllers/objectsets.GenericObjectSetController).reportPausedCondition#Paused=True"}},
+		Mutant{Prop: "C09", Name: "r3-benign-condition-filled-per-case-set-once-after-switch", File: osc, Benign: true,
+			Old: r3TwoLiterals + r3RemoveCase,
+			New: "\tvar pausedCond metav1.Condition\n\tpausedCond.Type = corev1alpha1.ObjectSetPaused\n\tpausedCond.ObservedGeneration = objectSet.ClientObject().GetGeneration()\n\n" +
+				r3SwitchHead +
+				"\t\tpausedCond.Status = metav1.ConditionUnknown\n\t\tpausedCond.Reason = \"PartiallyPaused\"\n\t\tpausedCond.Message = \"Waiting for ObjectSetPhases.\"\n\n" +
+				r3TrueCase +
+				"\t\tpausedCond.Status = metav1.ConditionTrue\n\t\tpausedCond.Reason = \"Paused\"\n\t\tpausedCond.Message = \"Lifecycle state set to paused.\"\n" +
+				"\n\tcase !objectSet.IsSpecPaused() && !phasesArePaused:\n\t\t// Nothing is paused!\n\t\tmeta.RemoveStatusCondition(objectSet.GetConditions(), corev1alpha1.ObjectSetPaused)\n\t\treturn nil\n\tdefault:\n\t\treturn nil\n\t}\n\tmeta.SetStatusCondition(objectSet.GetConditions(), pausedCond)\n"},
+		Mutant{Prop: "C09", Name: "r3-set-once-after-switch-true-also-in-the-partially-paused-case", File: osc,
+			Old: r3TwoLiterals + r3RemoveCase,
+			New: "\tvar pausedCond metav1.Condition\n\tpausedCond.Type = corev1alpha1.ObjectSetPaused\n\tpausedCond.ObservedGeneration = objectSet.ClientObject().GetGeneration()\n\n" +
+				r3SwitchHead +
+				"\t\tpausedCond.Status = metav1.ConditionTrue\n\t\tpausedCond.Reason = \"PartiallyPaused\"\n\t\tpausedCond.Message = \"Waiting for ObjectSetPhases.\"\n\n" +
+				r3TrueCase +
+				"\t\tpausedCond.Status = metav1.ConditionTrue\n\t\tpausedCond.Reason = \"Paused\"\n\t\tpausedCond.Message = \"Lifecycle state set to paused.\"\n" +
+				"\n\tcase !objectSet.IsSpecPaused() && !phasesArePaused:\n\t\t// Nothing is paused!\n\t\tmeta.RemoveStatusCondition(objectSet.GetConditions(), corev1alpha1.ObjectSetPaused)\n\t\treturn nil\n\tdefault:\n\t\treturn nil\n\t}\n\tmeta.SetStatusCondition(objectSet.GetConditions(), pausedCond)\n",
+			Expect: []string{"C09.R3@(*internal/controllers/objectsets.GenericObjectSetController).reportPausedCondition#Paused=True"}},
+		Mutant{Prop: "C09", Name: "r5-benign-active-list-from-new-helper", File: pkgc, Benign: true,
+			Old:  r5PausedTail,
+			New:  "\tfor _, r := range c.activeReconcilers(pkg) {",
+			More: []Edit{{File: pkgc, Old: "func (c *GenericPackageController) updateStatus(", New: "func (c *GenericPackageController) activeReconcilers(pkg adapters.GenericPackageAccessor) []reconciler {\n\tif pkg.GetSpecPaused() {\n\t\treturn []reconciler{c.objDepStatusReconciler}\n\t}\n\treturn c.reconciler\n}\n\nfunc (c *GenericPackageController) updateStatus("}}},
+		Mutant{Prop: "C09", Name: "r5-benign-active-list-selected-in-place", File: pkgc, Benign: true,
+			Old: r5PausedTail,
+			New: "\tactive := c.reconciler\n\tif pkg.GetSpecPaused() {\n\t\tactive = []reconciler{c.objDepStatusReconciler}\n\t}\n\tfor _, r := range active {"},
+		Mutant{Prop: "C09", Name: "r5-active-list-selection-inverted", File: pkgc,
+			Old:    r5PausedTail,
+			New:    "\tactive := c.reconciler\n\tif !pkg.GetSpecPaused() {\n\t\tactive = []reconciler{c.objDepStatusReconciler}\n\t}\n\tfor _, r := range active {",
+			Expect: []string{"C09.R5@"}},
+		Mutant{Prop: "C09", Name: "r5-paused-list-also-holds-the-first-writing-reconciler", File: pkgc,
+			Old:    r5PausedTail,
+			New:    "\tactive := c.reconciler\n\tif pkg.GetSpecPaused() {\n\t\tactive = []reconciler{c.objDepStatusReconciler, c.reconciler[0]}\n\t}\n\tfor _, r := range active {",
+			Expect: []string{"C09.R5@"}},
+		Mutant{Prop: "C09", Name: "r5-new-helper-returns-all-reconcilers-when-paused-without-finalizer", File: pkgc,
+			Old:    r5PausedTail,
+			New:    "\tfor _, r := range c.activeReconcilers(pkg) {",
+			More:   []Edit{{File: pkgc, Old: "func (c *GenericPackageController) updateStatus(", New: "func (c *GenericPackageController) activeReconcilers(pkg adapters.GenericPackageAccessor) []reconciler {\n\tif pkg.GetSpecPaused() && len(pkg.ClientObject().GetFinalizers()) > 0 {\n\t\treturn []reconciler{c.objDepStatusReconciler}\n\t}\n\treturn c.reconciler\n}\n\nfunc (c *GenericPackageController) updateStatus("}},
+			Expect: []string{"C09.R5@"}},
 	)
 }
